@@ -227,6 +227,14 @@ class World:
         os.kill = fake_kill
         os.killpg = fake_killpg
         os.getpgid = fake_getpgid
+        # names imported into the module under test (`from asyncio import create_subprocess_shell`, `from os import killpg`)
+        self._module_names = {}
+        for name, fake in (("create_subprocess_shell", fake_shell), ("create_subprocess_exec", fake_exec),
+                           ("killpg", fake_killpg), ("kill", fake_kill), ("getpgid", fake_getpgid)):
+            if hasattr(self.local, name) and callable(getattr(self.local, name)) and \
+                    getattr(getattr(self.local, name), "__module__", "").split(".")[0] in ("asyncio", "os", "posix", "nt"):
+                self._module_names[name] = getattr(self.local, name)
+                setattr(self.local, name, fake)
 
     def close(self):
         o = self._orig
@@ -237,6 +245,8 @@ class World:
         os.kill = o["os.kill"]
         os.killpg = o["os.killpg"]
         os.getpgid = o["os.getpgid"]
+        for name, real in getattr(self, "_module_names", {}).items():
+            setattr(self.local, name, real)
         try:
             # cancel whatever is left so no coroutine outlives the case
             for t in asyncio.all_tasks(self.loop):
